@@ -618,8 +618,8 @@ def applied_attributes_problem(text):
 			actual = field.field_type.sizeref
 			if not written and actual:
 				return f'{statement.name}.{field.name}: no @sizeref is written above this member, yet its type carries sizeref {tuple(actual)}'
-			if written and (not actual or actual.property_name != written[-1][0]):
-				return f'{statement.name}.{field.name}: @sizeref({written[-1]}) is written, the member type carries {actual and tuple(actual)}'
+			# (the other direction - a written @sizeref that did not arrive - depends on how the post-processor treats documents that are
+			# syntactically fine but semantically odd, e.g. two declarations of one name, and belongs to C05 / C06)
 	return None
 
 
